@@ -173,6 +173,13 @@ func resolveUpdate(w *World, op Op, st Stored) *Request {
 		}
 		r.SigValid = 0
 	}
+	if op.M == "pad_to" {
+		// an extension line sized so that the submitted note is exactly MV bytes long (legal: extension lines are free-form)
+		base := len(CheckpointText(origin, r.Size, r.Root)) + 1 + len(w.Keys[signKey].SignEd25519("x"))
+		if fill := int(op.MV) - base - 1; fill > 0 {
+			ext = append(ext, strings.Repeat("p", fill))
+		}
+	}
 	r.Text = CheckpointText(origin, r.Size, r.Root, ext...)
 	cp := &SignedCP{Origin: origin, Branch: r.Branch, Size: r.Size, Root: r.Root, Text: r.Text}
 	var lines []string
